@@ -589,7 +589,10 @@ fn replay(p: &P17, choices: &[usize]) -> Option<String> {
 /// quick tier: programs with three actors get one deviation less, so that the whole list completes
 /// within the quick budget (the bound of every program is in the evidence)
 fn bound_for(p: &P17, bound: (usize, usize), thorough: bool) -> (usize, usize) {
-    if !thorough && p.actors.len() >= 3 {
+    // (also the programs with the most schedules per deviation: two full open/put/close bodies,
+    // and the attempts that fail for a reason of their own)
+    let heavy = p.name.contains("open-eie") || p.name.contains("open-nocreate") || p.name == "open:open||open" || p.name.ends_with("||openclose");
+    if !thorough && (p.actors.len() >= 3 || heavy) {
         (bound.0, bound.1 - 1)
     } else {
         bound
